@@ -17,7 +17,7 @@ list() {
     python3 - "$m" <<'PY'
 import json,sys,re
 m=json.load(open(sys.argv[1]))
-if m.get('silent') or m.get('not_counted') or m.get('neutralised_by') or m.get('thorough_only'): sys.exit()
+if m.get('silent') or m.get('not_counted') or m.get('neutralised_by') or m.get('thorough_only') or m.get('unreachable'): sys.exit()
 ids=re.findall(r'C\d\d', m.get('caught_by',''))
 seen=[]
 for i in ids:
